@@ -191,7 +191,7 @@ class ReviewedMatcher:
         for k, sigs in sorted(self.sigs.items()):
             fn_, kd = k.rsplit('|', 1)
             rk = (fn_, kd)
-            if kd != kind or rk not in self.reviewed or fn_ in self.present:
+            if kd != kind or rk not in self.reviewed:
                 continue
             if sig in sigs and self.used.get(rk, 0) < self.reviewed[rk][0]:
                 self.used[rk] = self.used.get(rk, 0) + 1
